@@ -280,7 +280,7 @@ def gen(tier: str, seed: int):
         ])
         subs = []
         for nm_ in ("aa_first", "alpha", "beta", "zz_last"):
-            subs.append(pg.Mod(("pk",), nm_, imports=["from pk.shared_base import _Base"], decls=[pg.Cls(nm_.title().replace("_", ""), bases=["_Base"], methods=[pg.Fn(f"own_{nm_}", role="inst")])]))
+            subs.append(pg.Mod(("pk",), nm_, imports=["from pk.shared_base import _Base"], decls=[pg.Cls(nm_.title().replace("_", ""), bases=["_Base"], methods=[pg.Fn("own_method" if j % 2 == 0 else f"own_{nm_}", role="inst")])]))  # (every second group: the same own member names in all subclasses)
         base.modules += [shared, *subs]
         for m in subs[1:3]:
             variants = []
